@@ -1,0 +1,20 @@
+//go:build verif
+
+package encoder
+
+import "unsafe"
+
+// Hooks for the /verif correspondence harness. Compiled only with -tags verif.
+
+// VerifAppendInt runs AppendInt on a 64-bit word as the interpreter would for a value of
+// the given bit size stored at the start of that word.
+func VerifAppendInt(bits uint8, w uint64) []byte {
+	code := &Opcode{NumBitSize: bits}
+	return AppendInt(nil, nil, uintptr(unsafe.Pointer(&w)), code)
+}
+
+// VerifAppendUint is the unsigned twin of VerifAppendInt.
+func VerifAppendUint(bits uint8, w uint64) []byte {
+	code := &Opcode{NumBitSize: bits}
+	return AppendUint(nil, nil, uintptr(unsafe.Pointer(&w)), code)
+}
